@@ -20,7 +20,7 @@ head=f"""# Seeded property-breaking changes
 
 Each directory holds `patch.diff`, the sub-agent's demonstration and `meta.json` (what it needs to manifest, what was run, what caught it). None of these is ever committed to /repo; to re-run one: `git -C <scratch worktree> apply patch.diff && VERIF_REPO=<scratch worktree> ./check <ID> quick`.
 
-{n} changes from eight rounds (rounds 1-2 are <ID>-1/-2, round 3 is <ID>-3/-4, round 4 is <ID>-5/-6, rounds 5 and 6 - twelve and the other eight properties - are <ID>-7/-8, round 7 is <ID>-9/-10, round 8 is <ID>-11/-12); {n-missed} were caught by the checks as they stood when the change arrived, {missed} were missed at first and each led to a strengthening of a check (last column), after which all {n} are caught. Three changes were not kept: C06-6 (round 4) repeated C05-1 and made an existing test fail; C07-8 and C18-8 (round 5) only show after a file-system operation fails and the process carries on, which neither statement quantifies over (the unchanged tree behaves alike at other operations).
+{n} changes from nine rounds (rounds 1-2 are <ID>-1/-2, round 3 is <ID>-3/-4, round 4 is <ID>-5/-6, rounds 5 and 6 - twelve and the other eight properties - are <ID>-7/-8, round 7 is <ID>-9/-10, round 8 is <ID>-11/-12, round 9 is <ID>-13/-14); {n-missed} were caught by the checks as they stood when the change arrived, {missed} were missed at first and each led to a strengthening of a check (last column), after which all {n} are caught. Three changes were not kept: C06-6 (round 4) repeated C05-1 and made an existing test fail; C07-8 and C18-8 (round 5) only show after a file-system operation fails and the process carries on, which neither statement quantifies over (the unchanged tree behaves alike at other operations).
 
 | change | what it does | needs | caught by | first run |
 |---|---|---|---|---|
